@@ -229,10 +229,11 @@ PROPS["C02"] = dict(
 
 PROPS["C03"] = dict(
     hosts={"histogram": ["c03.rs"]},
-    jobs=4,
+    jobs=3,
     harnesses={
         "c03_sequence_direct_three_collects": dict(cap=3600),
-        "c03_sequence_batches_three_collects": dict(cap=3600),
+        "c03_sequence_batch_visible_after_flush": dict(cap=3600),
+        "c03_sequence_mixed_three_collects": dict(cap=3600),
         "c03_sequence_empty_flush_and_getters": dict(cap=3600),
         "c03_quiescent_collect_returns_immediately": dict(cap=1800),
     },
